@@ -694,6 +694,8 @@ def mul_dekker(
     if assume_fma:
         xyh = x * y
         xyl = x * y + (-xyh)  # assuming this is mapped to fma(x, y, -xyh)
+        # no splitting is involved: the only product that can overflow is x * y
+        xh, yh = x, y
     else:
         xh, xl = split_veltkamp(ctx, x, C=C, scale=scale, dtype=dtype)
         yh, yl = split_veltkamp(ctx, y, C=C, scale=scale, dtype=dtype)
